@@ -29,3 +29,20 @@ CASES = [
     t("formula with common denominator", I,
       "    cc = (np.dot(d1,d2)/(RR**3)\n        - 3.0*np.dot(d1,R)*np.dot(d2,R)/(RR**5))", "    cc = (np.dot(d1,d2)*RR**2\n        - 3.0*np.dot(d1,R)*np.dot(d2,R))/(RR**5)"),
 ]
+
+CASES += [
+    m("two-exciton: 'one quantum moved' test dropped", "C03-F", A,
+      "                            if (sdf == 2):", "                            if (sdf >= 2):"),
+    t("'one quantum moved' test evaluated on the two differing sites only", A,
+      "                            df = numpy.abs(ar1-ar2)\n                            sdf = numpy.sum(df)",
+      "                            df = numpy.abs(ar1[[kk,ll]]-ar2[[kk,ll]])\n                            sdf = numpy.sum(df)"),
+    m("electronic two-exciton states: any difference couples", "C03-F", A,
+      "                        if k == 2:\n                            kk = sites[0]\n                            ll = sites[1]\n                            coup = self.resonance_coupling[kk,ll]\n",
+      "                        if k >= 2:\n                            kk = sites[0]\n                            ll = sites[1]\n                            coup = self.resonance_coupling[kk,ll]\n"),
+    m("one-exciton couplings shifted by one molecule", "C03-F", A,
+      "                        kk = es1.index - 1\n                        ll = es2.index - 1",
+      "                        kk = es1.index - 1\n                        ll = es2.index"),
+    t("differing sites recorded without the guard", A,
+      "                                if (k == 0) or (k == 1):\n                                    sites[k] = i\n                                k += 1\n                        # if there are exactly 2 differences, the differing\n                        # two molecules are those coupled; sites[k] contains\n                        # indiced those coupled molecules\n                        if k == 2:\n                            kk = sites[0]\n                            ll = sites[1]\n                            #print(kk,ll,els1,els2)",
+      "                                if k < 2:\n                                    sites[k] = i\n                                k = k + 1\n                        if k == 2:\n                            kk, ll = sites\n                            #print(kk,ll,els1,els2)"),
+]
